@@ -37,8 +37,6 @@ type ipath struct {
 	Root   []*ssa.BasicBlock // the blocks of the root function on this path (loop bodies at most twice)
 }
 
-func (p ipath) String() string { return p.Trace }
-
 // keySubst applies a parameter→argument substitution and call-result bindings to a key.
 func keySubst(k string, sub map[string]string) string {
 	if len(sub) == 0 {
